@@ -21,6 +21,8 @@ import (
 	"github.com/Oneledger/protocol/data/governance"
 	"github.com/Oneledger/protocol/data/keys"
 	"github.com/Oneledger/protocol/data/ons"
+	"github.com/Oneledger/protocol/external_apps/bid/bid_action"
+	"github.com/Oneledger/protocol/external_apps/bid/bid_data"
 )
 
 // kind codes K_* of coq/theories/LedgerTx.v
@@ -43,6 +45,8 @@ const (
 	c02KDomainPurchase
 	c02KDomainSend
 	c02KDomainSell
+	c02KBidCreate
+	c02KBidCounter
 )
 
 // c02Msg decodes the payload of the kinds that carry an amount
@@ -134,6 +138,16 @@ func c02Msg(tx *action.SignedTx) (kind int, msg interface{}, amount *action.Amou
 		if un(m) {
 			return c02KDomainSend, m, &m.Amount
 		}
+	case bid_action.BID_CREATE:
+		m := &bid_action.CreateBid{}
+		if un(m) {
+			return c02KBidCreate, m, &m.Amount
+		}
+	case bid_action.BID_CONTER_OFFER:
+		m := &bid_action.CounterOffer{}
+		if un(m) {
+			return c02KBidCounter, m, &m.Amount
+		}
 	case action.DOMAIN_SELL:
 		m := &onsact.DomainSale{}
 		if un(m) {
@@ -167,7 +181,13 @@ var c02Pool1 = keys.Address("00000000000000000001").String()
 // record, pool addresses, heights) from the live deliver state, and returns the constructor of the model term
 func c02PreTx(r *c02Runner, before *c02View, tx *action.SignedTx) c02Pre {
 	kind, msg, amt := c02Msg(tx)
-	if kind == 0 || amt == nil || len(tx.Signatures) == 0 {
+	if len(tx.Signatures) == 0 {
+		return nil
+	}
+	if kind == 0 {
+		return c02PreBid(r, before, tx)
+	}
+	if amt == nil {
 		return nil
 	}
 	h0, err := tx.Signatures[0].Signer.GetHandler()
@@ -277,6 +297,27 @@ func c02PreTx(r *c02Runner, before *c02View, tx *action.SignedTx) c02Pre {
 			sale = c02Z(d.SalePrice.BigInt().String())
 		}
 		eff = fmt.Sprintf("effect_domain_purchase %s %d %d %d %s %s %s %d %s", c02B(known), cur, o(m.Buyer), fp, v, c02B(onSale), sale, o(d.Owner), c02Z(oo.BaseDomainPrice.BigInt().String()))
+	case *bid_action.CreateBid:
+		id := string(m.BidConvId)
+		if id == "" {
+			id = string(bid_data.NewBidConv(m.AssetOwner, m.AssetName, m.AssetType, m.Bidder, m.Deadline, height).BidConvId)
+		}
+		hc, c := "false", "0"
+		if ca, ok := before.BidCounter[id]; ok {
+			hc, c = "true", c02Z(ca.String())
+		}
+		eff = fmt.Sprintf("effect_bid_create %s %d %d %d %s %s %s", c02B(known), cur, o(m.Bidder), r.in.prop("bid:"+id), v, hc, c)
+	case *bid_action.CounterOffer:
+		cv, ok := before.Convs[string(m.BidConvId)]
+		if !ok {
+			return func(int64, bool) string { return "fun _ => None" }
+		}
+		price0 := new(big.Int).Set(tx.Fee.Price.Value.BigInt())
+		bidder, conv := r.in.owner(cv[0]), r.in.prop("bid:"+string(m.BidConvId))
+		return func(gasUsed int64, ok bool) string {
+			fee := new(big.Int).Mul(big.NewInt(gasUsed), price0)
+			return fmt.Sprintf("fun l => tx_ops (effect_bid_counter l %s %d %d %d %s) %d %d %s", c02B(known), cur, bidder, conv, v, payer, fp, c02Z(fee.String()))
+		}
 	case *onsact.DomainSend:
 		d, err := ons.NewDomainStore("d", state).Get(m.Name)
 		if err != nil || d == nil {
@@ -289,6 +330,72 @@ func c02PreTx(r *c02Runner, before *c02View, tx *action.SignedTx) c02Pre {
 	return func(gasUsed int64, ok bool) string {
 		fee := new(big.Int).Mul(big.NewInt(gasUsed), price)
 		return fmt.Sprintf("fun _ => tx_ops (%s) %d %d %s", eff, payer, fp, c02Z(fee.String()))
+	}
+}
+
+// the bid kinds without an amount: cancel, expire, the two decisions
+func c02PreBid(r *c02Runner, before *c02View, tx *action.SignedTx) c02Pre {
+	h0, err := tx.Signatures[0].Signer.GetHandler()
+	if err != nil {
+		return nil
+	}
+	payer, fp := r.in.owner(h0.Address().String()), r.in.owner(c02FeePoolOwner)
+	price := new(big.Int).Set(tx.Fee.Price.Value.BigInt())
+	var id string
+	var build func(bidder, owner, conv int) string
+	switch tx.Type {
+	case bid_action.BID_CANCEL:
+		m := &bid_action.CancelBid{}
+		if json.Unmarshal(tx.Data, m) != nil {
+			return nil
+		}
+		id = string(m.BidConvId)
+		build = func(b, o, c int) string { return fmt.Sprintf("effect_bid_unlock l %d %d", b, c) }
+	case bid_action.BID_EXPIRE:
+		m := &bid_action.ExpireBid{}
+		if json.Unmarshal(tx.Data, m) != nil {
+			return nil
+		}
+		id = string(m.BidConvId)
+		build = func(b, o, c int) string { return fmt.Sprintf("effect_bid_unlock l %d %d", b, c) }
+	case bid_action.BID_OWNER_DECISION:
+		m := &bid_action.OwnerDecision{}
+		if json.Unmarshal(tx.Data, m) != nil {
+			return nil
+		}
+		id = string(m.BidConvId)
+		accept := m.Decision == bid_data.AcceptBid
+		build = func(b, o, c int) string {
+			if accept {
+				return fmt.Sprintf("effect_bid_owner_accept l %d %d %d", b, o, c)
+			}
+			return fmt.Sprintf("effect_bid_unlock l %d %d", b, c)
+		}
+	case bid_action.BID_BIDDER_DECISION:
+		m := &bid_action.BidderDecision{}
+		if json.Unmarshal(tx.Data, m) != nil {
+			return nil
+		}
+		id = string(m.BidConvId)
+		accept := m.Decision == bid_data.AcceptBid
+		ca := before.BidCounter[id]
+		build = func(b, o, c int) string {
+			if accept && ca != nil {
+				return fmt.Sprintf("effect_bid_bidder_accept %d %d %s", b, o, c02Z(ca.String()))
+			}
+			return "Some []"
+		}
+	default:
+		return nil
+	}
+	cv, ok := before.Convs[id]
+	if !ok {
+		return func(int64, bool) string { return "fun _ => None" }
+	}
+	eff := build(r.in.owner(cv[0]), r.in.owner(cv[1]), r.in.prop("bid:"+id))
+	return func(gasUsed int64, ok bool) string {
+		fee := new(big.Int).Mul(big.NewInt(gasUsed), price)
+		return fmt.Sprintf("fun l => tx_ops (%s) %d %d %s", eff, payer, fp, c02Z(fee.String()))
 	}
 }
 
